@@ -4,9 +4,11 @@
 //! alphabet of top-level calls is run on one thread; the canonical textual result of every call must equal
 //! the result of the same call on a FRESH thread, and the probes of the two thread-locals
 //! (`verif_hooks::tls`) must be clean after every completed call. A second sweep runs every alphabet call
-//! NESTED inside a user `Deserialize` impl (three host positions) and demands (a) the nested result = the
+//! NESTED inside a user `Deserialize` impl (four host positions) and demands (a) the nested result = the
 //! fresh result and (b) the enclosing call's result = the result of the same enclosing call with the nested
-//! parse replaced by a non-parsing `Deserialize`.
+//! parse replaced by a non-parsing `Deserialize`. (a) and (b) failed before the repairs 4aaf328 and b68ea91
+//! (oracle ids `C15-nested-call-inherits-fallback-location`, `C15-nested-call-clobbers-anchors`: now
+//! regression checks, nothing is suppressed).
 //!
 //! DIFFERENTIAL (model vs implementation): every alphabet call carries a *script* — the tree of
 //! thread-local operations the deserializer performs on that input (document scopes, anchor contexts,
@@ -802,12 +804,12 @@ fn generate(a: &Args) -> i32 {
             for part in &inner {
                 if *part != fresh[i].oracle {
                     let id = if name == "nonzero" { "C15-nested-call-inherits-fallback-location" } else { "C15-nested-result-differs" };
-                    oracle_line(&mut oracle, id, "the result of a call nested inside a user Deserialize impl differs from the result of the same call on a fresh thread (the nested call starts with the enclosing call's fallback location in the thread-local cell)", &input, part, &fresh[i].oracle);
+                    oracle_line(&mut oracle, id, "the result of a call nested inside a user Deserialize impl differs from the result of the same call on a fresh thread (for `nonzero`: regression of fix 4aaf328, the nested call must not start with the enclosing call's fallback location)", &input, part, &fresh[i].oracle);
                 }
             }
             if outer.oracle != ref_outer.oracle {
                 let id = if name != "ser" { "C15-nested-call-clobbers-anchors" } else { "C15-nested-call-affects-enclosing" };
-                oracle_line(&mut oracle, id, "the enclosing call's result changes when a user Deserialize impl performs a nested call (the nested call resets the thread-local anchor state of the enclosing call)", &input, &outer.oracle, &ref_outer.oracle);
+                oracle_line(&mut oracle, id, "the enclosing call's result changes when a user Deserialize impl performs a nested call (regression of fix b68ea91: a nested document scope must save and restore the enclosing call's thread-local anchor state)", &input, &outer.oracle, &ref_outer.oracle);
             }
             if !outer.answer.ends_with(&format!(" e{CLEAN}")) {
                 oracle_line(&mut oracle, "C15-thread-local-not-clean", "a thread-local is not back in its initial state after a completed top-level call", &input, &outer.answer, CLEAN);
